@@ -451,6 +451,13 @@ def r6_header_constants(ctx, res):
                                        f'in a different order: {prints[:3]}')
 
 
+def r7_writer_stateless(ctx, res):
+    """what the writer (and reader) emits for an element depends on that element alone: no helper of wn.lmf hands out a
+    module-level / default-argument object that is then written into, no record shares an object with its siblings."""
+    from ..sharing import report
+    report(ctx, res, {'lmf'}, 'lmf')
+
+
 RULES = [
     ('C02-R1', r1_tables, 40),
     ('C02-R2', r2_model_reader, 70),
@@ -458,4 +465,5 @@ RULES = [
     ('C02-R4', r4_metadata_tables, 3),
     ('C02-R5', r5_escaping, 7),
     ('C02-R6', r6_header_constants, 5),
+    ('C02-R7', r7_writer_stateless, 3),
 ]
